@@ -17,6 +17,12 @@ Lines (tab separated):
   gen.bal     <account/denom> <A> <B>          a balance that differs after the continuation
   gen.balances <accounts> <differing>
   gen.note    <text>
+  gen.field   <module> <field, lower case without _> list|scalars|scalar <records in the richest state> <reason|->
+                                               a top-level field of the module's exported genesis JSON (after the last case)
+  gen.list    <module> <json path> <records in the richest state> <id pairs seen different> <id pairs> <pairs equal in every record|-> <reason|->
+                                               a record list at any depth of the exported genesis
+  gen.coverage <module>                        all gen.field lines sent: every `genFields` entry of the regenerated table must have been
+                                               reported, record lists non-empty in at least one state (BAD otherwise: a hole in the fixture)
 
 For `gen.check` the keys are attributed to the prefixes of the regenerated table (`Comdex.Gen.Genesis`), the model's
 `init ∘ export` is run on A's store with the extracted rules and compared with B's store (DIFF = the model does not describe what
@@ -47,6 +53,7 @@ structure St where
   nA : Nat := 0
   nB : Nat := 0
   seen : List (String × String) := []   -- (module, first byte) already checked
+  fields : List (String × String × String × Nat × String) := []   -- population report: (module, field, kind, max records, reason)
 
 def init : St := {}
 
@@ -146,7 +153,21 @@ def checkParams (st : St) (seq : String) (mod : String) : List String :=
 
 def handle (st : St) (seq : String) (f : List String) : St × List String :=
   match f with
-  | ["gen.begin", _, _] => ({}, [])
+  | ["gen.begin", _, _] => ({ fields := st.fields }, [])
+  | ["gen.field", mod, fld, kind, n, why] => ({ st with fields := (mod, fld, kind, n.toNat?.getD 0, why) :: st.fields }, [])
+  | ["gen.list", mod, path, n, _, _, missing, why] =>
+    (st, (if n.toNat? == some 0 && why == "-" then [s!"BAD\t{seq}\tpopulation: record list {mod}.{path} is empty in every exported state"] else []) ++
+         (if missing != "-" then [s!"BAD\t{seq}\tpopulation: id fields {missing} of {mod}.{path} are equal in every record of every exported state"] else []))
+  | ["gen.coverage", mod] =>
+    match modules.find? (fun m => m.name == mod) with
+    | none => (st, [s!"BAD\t{seq}\tunknown module {mod}"])
+    | some m =>
+      let norm (s : String) : String := String.ofList ((s.toList.filter fun c => c != '_').map Char.toLower)
+      (st, m.genFields.filterMap fun g =>
+        match st.fields.find? (fun f => f.1 == mod && f.2.1 == norm g) with
+        | none => some s!"BAD\t{seq}\tpopulation: genesis field {mod}.{g} of the regenerated table was never seen in an exported state"
+        | some f => if f.2.2.1 == "list" && f.2.2.2.1 == 0 && f.2.2.2.2 == "-" then
+                      some s!"BAD\t{seq}\tpopulation: exported list {mod}.{g} is empty in every state" else none)
   | "gen.import" :: o :: mod :: _ => (st, if o = "ok" then [] else [s!"MON\t{seq}\timport_accepts_export:{mod}"])
   | "gen.validate" :: mod :: o :: _ => (st, if o = "ok" then [] else [s!"MON\t{seq}\timport_accepts_export:{mod}"])
   | ["gen.kv", side, mod, k, v] =>
